@@ -229,7 +229,7 @@ func measureCFF(f *sfnt.Font) cffSizes {
 
 // tuneCFF changes string lengths or outlines of f so that the chosen INDEX of the encoded CFF
 // table has exactly want bytes of data.  Nothing is done when the INDEX is already larger.
-func tuneCFF(f *sfnt.Font, which string, want int) {
+func tuneCFF(f *sfnt.Font, which string, want int, strict bool) {
 	out, ok := f.Outlines.(*cff.Outlines)
 	if !ok || which == "" || which == "off" || want <= 0 {
 		return
@@ -284,10 +284,24 @@ func tuneCFF(f *sfnt.Font, which string, want int) {
 			x, y float64
 			k    int
 		}
+		// one pen (a new sub-path) on the last glyph; further glyphs get one only when much is missing
 		var pens []*pen
-		for _, g := range out.Glyphs {
+		addPen := func(g *cff.Glyph) *pen {
 			g.MoveTo(10, 10)
-			pens = append(pens, &pen{g: g, x: 10, y: 10})
+			p := &pen{g: g, x: 10, y: 10}
+			pens = append(pens, p)
+			return p
+		}
+		lastGlyph := out.Glyphs[len(out.Glyphs)-1]
+		addPen(lastGlyph)
+		if after := measureCFF(f).charStrings; after < 0 || after > want {
+			lastGlyph.Cmds = lastGlyph.Cmds[:len(lastGlyph.Cmds)-1]
+			return
+		}
+		if want-cur > 2000 {
+			for _, g := range out.Glyphs[:len(out.Glyphs)-1] {
+				addPen(g)
+			}
 		}
 		step := func(p *pen, dx, dy float64) {
 			if p.k%2 == 1 {
@@ -327,7 +341,7 @@ func tuneCFF(f *sfnt.Font, which string, want int) {
 			cur = next
 		}
 		cands := [][2]float64{{5, 7}, {5, 0}, {0, 7}, {200, 7}, {200, 0}, {0, 300}, {200, 300}, {2000, 7}, {2000, 0}, {2000, 3000}}
-		p := pens[len(pens)-1]
+		p := pens[0]
 		for it := 0; cur != want && it < 1000; it++ {
 			accepted := false
 			for _, c := range cands {
@@ -344,7 +358,7 @@ func tuneCFF(f *sfnt.Font, which string, want int) {
 				break
 			}
 		}
-		if cur != want {
+		if cur != want && strict { // the dedicated cover group must hit its sizes; random combinations may miss
 			vio.Fatal(fmt.Sprintf("CharStrings INDEX has %d bytes, wanted %d", cur, want))
 		}
 	default:
